@@ -4,6 +4,8 @@ namespace Interp
 
 inductive Ty where
   | unit | bool | int | nat | mutez | timestamp | string | bytes | address | chainId
+  /-- `never` (no values), `key_hash` and `key` (opaque base58 text, like `address`) -/
+  | never | keyHash | key
   | option (t : Ty)
   | or (l r : Ty)
   | pair (l r : Ty)
@@ -22,7 +24,7 @@ mutual
     /-- strings are ASCII (pytezos asserts it): list of character codes -/
     | str (s : List Nat)
     | bytes (b : List Nat)
-    /-- `address` / `chain_id`: opaque base58 text -/
+    /-- `address` / `chain_id` / `key_hash` / `key`: opaque base58 text -/
     | atom (t : Ty) (s : List Nat)
     | pair (a b : Val)
     | some (v : Val)
@@ -54,6 +56,9 @@ mutual
     | AMOUNT | BALANCE | SENDER | SOURCE | NOW | LEVEL | CHAIN_ID | SELF_ADDRESS | TOTAL_VOTING_POWER | MIN_BLOCK_TIME
     | BLAKE2B | SHA256 | SHA512 | KECCAK | SHA3
     | CAST (t : Ty) | RENAME
+    /- extension 2, phase A: `never`, the int / nat ↔ bytes conversions (`INT` also takes `bytes`), voting power of a
+    delegate, hash of a public key -/
+    | NEVER | NAT | BYTES | VOTING_POWER | HASH_KEY
 end
 
 instance : Inhabited Val := ⟨.unit⟩
@@ -68,8 +73,11 @@ structure Hashes where
   sha512 : List Nat → List Nat
   keccak : List Nat → List Nat
   sha3 : List Nat → List Nat
+  /-- HASH_KEY: base58 text of a public key ↦ base58 text of its hash (`Key.from_encoded_key(k).public_key_hash()`:
+  Base58Check decoding, BLAKE2b with a 20-byte digest, Base58Check encoding under the prefix of the curve) -/
+  hashKey : List Nat → List Nat := fun _ => []
 
-instance : Inhabited Hashes := ⟨⟨fun _ => [], fun _ => [], fun _ => [], fun _ => [], fun _ => []⟩⟩
+instance : Inhabited Hashes := ⟨⟨fun _ => [], fun _ => [], fun _ => [], fun _ => [], fun _ => [], fun _ => []⟩⟩
 
 /-- execution environment (`ExecutionContext` getters) -/
 structure Env where
@@ -84,6 +92,8 @@ structure Env where
   /-- `context.get_total_voting_power()` / `context.get_min_block_time()` -/
   totalVotingPower : Int := 0
   minBlockTime : Int := 1
+  /-- `context.get_voting_power(key_hash)`: voting power of every delegate (by the base58 text of its key hash) -/
+  votingPower : List Nat → Int := fun _ => 0
   hashes : Hashes := default
   deriving Inhabited
 
